@@ -150,7 +150,7 @@ func C04(c *Ctx) {
 		r.Check(refs[k], "C04-e", "template uses ."+k, "", "builder/static_code.go", "referenced", "parameter never referenced by the template")
 	}
 	r.Analysed["template_parameters"] = refl
-	c04Pipeline(c, g)
+	staticCodePipeline(c, g)
 	c04Flags(c, g)
 	builderFlow(c, g)
 	// formatting options of imports.Process (comments must survive: nolint markers, generated-code header)
@@ -336,7 +336,8 @@ func c04Wiring(c *Ctx, g *load.G) {
 			def = true
 			args := splitTop(strings.TrimSuffix(strings.TrimPrefix(p[iw].Text, "b.writeFunc("), ")"), ",")
 			okc := p.holds(cparam+".FuncIx>0") || p.holds(cparam+".FuncIx!=0")
-			oka := len(args) == 4 && args[0] == cparam+".FuncIx" && args[1] == cparam+".Code"
+			ro := c.writeFuncRoles()
+			oka := ro.Why == "" && len(args) == 4 && args[ro.Ix] == cparam+".FuncIx" && args[ro.Code] == cparam+".Code"
 			r.Check(okc && oka, "C04-c", "G.builder."+k.CodeWriter+":definition", "", g.Where(p[iw].Node.Pos()),
 				"writeFunc("+cparam+".FuncIx, "+cparam+".Code, …) for a pending method",
 				"method definition is emitted as "+abbreviate(p[iw].Text)+" under ["+strings.Join(p.facts(), " ")+"]")
@@ -693,47 +694,6 @@ func unicodeMissing(g *load.G) (missing []string, errText string) {
 	return missing, ""
 }
 
-// c04Pipeline checks the statement order of writeStaticCode that the checker reproduces.
-func c04Pipeline(c *Ctx, g *load.G) {
-	r := c.R
-	fd := load.FuncDecl(g.Pkg("builder"), "builder", "writeStaticCode")
-	if fd == nil {
-		r.Fatal("anchor builder.writeStaticCode not found")
-		return
-	}
-	var seq []string
-	ast.Inspect(fd, func(n ast.Node) bool {
-		if ce, ok := n.(*ast.CallExpr); ok {
-			seq = append(seq, callSel(ce))
-		}
-		return true
-	})
-	joined := strings.Join(seq, " ")
-	want := []string{"Parse", "Execute", "Split", "MustCompile", "MustCompile", "MatchString", "ReplaceAllString", "WriteString", "writeln"}
-	pos := 0
-	missing := ""
-	for _, w := range want {
-		i := strings.Index(joined[pos:], w)
-		if i < 0 {
-			missing = w
-			break
-		}
-		pos += i + len(w)
-	}
-	r.Check(missing == "", "C04-e", "G.builder.writeStaticCode:pipeline", "", g.Where(fd.Pos()), "parse → execute → split → strip → write, as reproduced by the checker", "step "+missing+" not found in order; the checker's instantiation may no longer be pigeon's")
-	// the template argument is the staticCode variable
-	okArg := false
-	ast.Inspect(fd, func(n ast.Node) bool {
-		if ce, ok := n.(*ast.CallExpr); ok && callSel(ce) == "Parse" && len(ce.Args) == 1 {
-			if id, ok := ce.Args[0].(*ast.Ident); ok && id.Name == "staticCode" {
-				okArg = true
-			}
-		}
-		return true
-	})
-	r.Check(okArg, "C04-e", "G.builder.writeStaticCode:template=staticCode", "", g.Where(fd.Pos()), "template text is the staticCode variable", "template text is not the staticCode variable")
-}
-
 type builtVariant struct {
 	v    *variants.Variant
 	skel string
@@ -786,62 +746,70 @@ func c04Flags(c *Ctx, g *load.G) {
 		r.Fatal("main.main not found")
 		return
 	}
-	flagVar := map[string]string{} // variable -> flag name
-	ast.Inspect(mf.Body, func(n ast.Node) bool {
-		vs, ok := n.(*ast.ValueSpec)
-		if !ok {
-			return true
+	want := map[string]string{"optimize-parser": "builder.Optimize", "optimize-basic-latin": "builder.BasicLatinLookupTable", "nolint": "builder.Nolint", "support-left-recursion": "builder.SupportLeftRecursion", "receiver-name": "builder.ReceiverName"}
+	got := map[string]string{}
+	passed := map[string]bool{}
+	var bad []string
+	// every option value that reaches builder.BuildParser, traced back through locals, parameters and `opts...`
+	mp := g.Pkg("")
+	fl := newFlow(mp, func(fn string) bool { return strings.HasSuffix(fn, "/pigeon.go") || strings.HasSuffix(fn, "_test.go") })
+	flagOf := func(o origin) string {
+		// *v or v where v is a local defined by fs.Bool("name", …) / fs.String("name", …)
+		e := o.Expr
+		if se, ok := e.(*ast.StarExpr); ok {
+			e = se.X
 		}
-		for i, nm := range vs.Names {
-			if i >= len(vs.Values) {
-				continue
+		for _, o2 := range fl.origins(e, o.Fd, 0) {
+			x := o2.Expr
+			if se, ok := x.(*ast.StarExpr); ok {
+				x = se.X
+				for _, o3 := range fl.origins(x, o2.Fd, 0) {
+					x = o3.Expr
+				}
 			}
-			if ce, ok := vs.Values[i].(*ast.CallExpr); ok && strings.HasPrefix(callName(ce), "fs.") && len(ce.Args) >= 1 {
+			if ce, ok := x.(*ast.CallExpr); ok && (callSel(ce) == "Bool" || callSel(ce) == "String") && len(ce.Args) >= 1 {
 				if bl, ok := ce.Args[0].(*ast.BasicLit); ok {
 					if v, err := strconv.Unquote(bl.Value); err == nil {
-						flagVar[nm.Name] = v
+						return v
 					}
 				}
 			}
 		}
-		return true
-	})
-	want := map[string]string{"optimize-parser": "builder.Optimize", "optimize-basic-latin": "builder.BasicLatinLookupTable", "nolint": "builder.Nolint", "support-left-recursion": "builder.SupportLeftRecursion", "receiver-name": "builder.ReceiverName"}
-	got := map[string]string{}
-	optVar := map[string]string{} // local option variable -> flag
-	ast.Inspect(mf.Body, func(n ast.Node) bool {
-		as, ok := n.(*ast.AssignStmt)
-		if !ok || len(as.Rhs) != 1 {
-			return true
+		return ""
+	}
+	nBuild := 0
+	for _, fd := range fl.decls {
+		for _, ce := range callsIn(fd.Body) {
+			if callName(ce) != "builder.BuildParser" {
+				continue
+			}
+			nBuild++
+			for _, o := range fl.variadicOrigins(ce, fd, 2, 0) {
+				oc, ok := o.Expr.(*ast.CallExpr)
+				if !ok || !strings.HasPrefix(callName(oc), "builder.") || len(oc.Args) != 1 {
+					bad = append(bad, g.Where(o.Expr.Pos())+": the option "+nospace(o.Expr)+" passed to BuildParser is not a builder option applied to a flag")
+					continue
+				}
+				f := ""
+				for _, ao := range fl.origins(oc.Args[0], o.Fd, 0) {
+					f = flagOf(ao)
+				}
+				if f == "" {
+					bad = append(bad, g.Where(oc.Pos())+": the option "+nospace(oc)+" is not given the value of a command-line flag")
+					continue
+				}
+				got[f] = callName(oc)
+				passed[f] = true
+			}
 		}
-		ce, ok := as.Rhs[0].(*ast.CallExpr)
-		if !ok || !strings.HasPrefix(callName(ce), "builder.") || len(ce.Args) != 1 {
-			return true
-		}
-		arg := strings.TrimPrefix(nospace(ce.Args[0]), "*")
-		if f, ok := flagVar[arg]; ok {
-			got[f] = callName(ce)
-			optVar[nospace(as.Lhs[0])] = f
-		}
-		return true
-	})
-	var bad []string
+	}
+	if nBuild != 1 {
+		bad = append(bad, fmt.Sprintf("%d calls of builder.BuildParser in the command, expected 1", nBuild))
+	}
 	for f, opt := range want {
 		if got[f] != opt {
 			bad = append(bad, fmt.Sprintf("-%s is wired to %q, expected %s", f, got[f], opt))
 		}
-	}
-	passed := map[string]bool{}
-	for _, ce := range callsIn(mf.Body) {
-		if callName(ce) == "builder.BuildParser" {
-			for _, a := range ce.Args {
-				if f, ok := optVar[nospace(a)]; ok {
-					passed[f] = true
-				}
-			}
-		}
-	}
-	for f := range want {
 		if !passed[f] {
 			bad = append(bad, "-"+f+" does not reach builder.BuildParser")
 		}
